@@ -41,6 +41,8 @@ class Cell:
     local: str = ""  # code placed in architecture() before the context
     note: str = ""
     range_check: bool = False  # the unwrapped spec value must also lie inside the output type's range
+    out_default: str = ""  # e.g. "Null": declare the output port with default=...
+    nonlocals: tuple = ()  # names declared in 'local' that the context function assigns
 
 
 def design_source(cells: list[Cell], ctx: str, ename="Cells"):
@@ -54,7 +56,8 @@ def design_source(cells: list[Cell], ctx: str, ename="Cells"):
     for i, c in enumerate(cells):
         for n, t in c.ins:
             lines.append(f"    c{i}_{n} = Port.input({port_type_src(t)})")
-        lines.append(f"    c{i}_o = Port.output({port_type_src(c.out)})")
+        dflt = f", default={c.out_default}" if c.out_default else ""
+        lines.append(f"    c{i}_o = Port.output({port_type_src(c.out)}{dflt})")
     lines.append("    def architecture(self):")
     for i, c in enumerate(cells):
         if c.local:
@@ -65,6 +68,9 @@ def design_source(cells: list[Cell], ctx: str, ename="Cells"):
     else:
         lines.append("        @std.concurrent")
     lines.append("        def logic():")
+    nl = [n.format(**_names(i, c)) for i, c in enumerate(cells) for n in c.nonlocals]
+    if nl:
+        lines.append("            nonlocal " + ", ".join(nl))
     for i, c in enumerate(cells):
         for ln in c.body.format(**_names(i, c)).splitlines():
             lines.append("            " + ln)
